@@ -66,7 +66,8 @@ def check_jumpset(crate, opt, vm, rep, cfg):
         else:
             fix = (sb, set(listed))
     # VM: variants whose arm assigns `ip` from the payload
-    ips = vm.locals_named("ip")
+    from props.c02 import ip_locals
+    ips = ip_locals(vm)
     vtr = Tracer(vm)
     vm_set = set()
     for bb, idx, s in vm.stmts():
@@ -115,11 +116,28 @@ def check_guard(crate, opt, rep, cfg):
     """product exploration: (block, taint, has_write) ; taint = is_jump_target[j] not tested false since j last changed"""
     tr = Tracer(opt)
     ef = EdgeFacts(opt, crate)
-    js = set(opt.locals_named("j"))
-    iv = set(opt.locals_named("i"))
-    hw = set(opt.locals_named("has_write"))
-    if not js or not iv:
-        rep.anchor_missing("C09.GUARD", "locals i / j in optimize")
+    # anchors by shape, not by name: j = the local(s) indexing the Vec<bool> (is_jump_target) in a *read*; the tracked flag = bool locals
+    # that receive compile-time constants in at least two blocks (has_write)
+    def src_locals(a):
+        out = set()
+        if a["k"] in ("copy", "move"):
+            out.add(a["pl"]["l"])
+            for (b2, i2, dp, rv) in opt.defs.get(a["pl"]["l"], []):
+                if rv["k"] == "use" and rv["op"]["k"] in ("copy", "move") and not rv["op"]["pl"]["p"]:
+                    out.add(rv["op"]["pl"]["l"])
+        return out
+    js = set()
+    for bb, t in find_calls(opt, ["std::ops::Index::index"]):
+        if "Vec<bool>" in t["atys"][0]:
+            js |= {l for l in src_locals(t["args"][1]) if opt.local_name(l)}
+    hw = set()
+    for l, ds in opt.defs.items():
+        if opt.local_ty(l) == "bool" and opt.local_name(l):
+            consts = {d[0] for d in ds if not d[2] and d[3]["k"] == "use" and d[3]["op"]["k"] == "const"}
+            if len(consts) >= 2:
+                hw.add(l)
+    if not js:
+        rep.anchor_missing("C09.GUARD", "the index local of the is_jump_target reads in optimize")
         return
     # absorption blocks: index_mut(index_map, j) i.e. Vec<usize> receiver with index derived from j
     absorb = []
